@@ -29,7 +29,8 @@ CHECKS = {
                   "uncached lookup returns a claim in the table that matches with maximal prefix length and None iff none matches; the cached decision "
                   "expires no later than now+switch timeout and no later than its claim; the sweep and peer removal leave nothing stale. Tied to the "
                   "code by the executed correspondence on ClaimTable operation sequences; failing-input oracles: bit-by-bit matcher and a history-based "
-                  "table reference. The node-level clause (router drops and counts, switch/hub flood) is part of the node model (C10).",
+                  "table reference. Node clauses: router mode drops and counts an unknown destination; switch/hub modes send it to every peer exactly once and a "
+                  "cached or fresh decision is never for a non-peer - both for every reachable node state (FloodProofs.v, NextHopProofs.v).",
              technique="Coq proof (list induction + finite in-kernel sweep) + executed model/implementation correspondence", ref="5 (C11)"),
  "C12": dict(text="Theorems C12_* (Properties/C12.v): after set_claims the ranges attributed to the peer are exactly the announced ones with fresh expiry, "
                   "other peers' live entries untouched, cached decisions of the peer gone if anything was dropped; unrefreshed claims vanish at the "
@@ -56,7 +57,8 @@ CHECKS = {
                   "the two speeds, maximum with id tie-break): plain iff both allow it; clean failure iff not both plain and no common cipher; "
                   "otherwise a common cipher whose slower side is fastest; both ends obtain the same result and the result is invariant under any "
                   "permutation of either list (uniqueness of the maximum under a strict total order on duplicate-free lists); an edited list "
-                  "is an edited signed message and is dropped without touching the handshake. Tied to the code by real handshakes between "
+                  "is an edited signed message and is dropped without touching the handshake; a node that does not allow plain never ends up with an "
+                  "unencrypted connection or an unsealed handshake payload, in every reachable state (SealedWireProofs.v). Tied to the code by real handshakes between "
                   "PeerCrypto objects with prescribed speeds vs the extracted model (all 1024 list pairs x speed grid x both initiators).",
              technique="Coq proof (order-independence of a maximum, list induction) + executed correspondence through real handshakes", ref="5 (C06)"),
  "C07": dict(text="Theorem C07_send_key_held: for EVERY schedule (list of arbitrary length, by induction) of rotation cycles at either end, delivery "
@@ -81,7 +83,9 @@ CHECKS = {
                   "that id, the counter fits 56 bits and the window admits it (the nonce premise proved for every such counter); unless plain every "
                   "PeerCrypto emission is a core seal of (type::body); a datagram opens iff genuine seal under slot key and reconstructed nonce; "
                   "reflected, foreign-key, bit-flipped and truncated datagrams never open, are ordinary errors and leave the core untouched; the node "
-                  "writes exactly the body of a DATA message. PARTIAL: absence of cleartext in real cipher output is checked on the real "
+                  "writes exactly the body of a DATA message; and for EVERY reachable state of a node that does not allow plain (induction over arbitrary "
+                  "event sequences, invariant NE of every node step): no unencrypted message leaves it, its node information never travels unsealed in a "
+                  "handshake message, no peer connection is unencrypted (SealedWireProofs.v). PARTIAL: absence of cleartext in real cipher output is checked on the real "
                   "datagrams by the correspondence run (all ciphers, every flip/truncation, reflection, 3-node cross-injection).",
              technique="Coq proof over an ideal-AEAD model of CryptoCore/PeerCrypto + executed correspondence with the real ciphers", ref="5 (C02)"),
  "C04": dict(text="Theorem C04_no_reuse (Properties/C04.v): for EVERY history (induction, any length below 2^95-2^48) of seals, opens, ticks and "
@@ -120,7 +124,9 @@ CHECKS = {
              technique="Coq proof (node step case analysis over all wire values + C03/C07 invariants) + executed correspondence with re-injection schedules", ref="5 (C09)"),
  "C10": dict(text="Theorems C10_* (Properties/C10.v) for every node state and input: an interface read causes only datagrams, each to an established "
                   "peer; a DATA message from a peer causes at most one interface write of exactly its body and no datagram (no relaying); unknown "
-                  "destination in router mode is dropped and counted; unverifiable datagrams cause nothing; sealed bodies arrive byte-identical. "
+                  "destination in router mode is dropped and counted; unverifiable datagrams cause nothing; sealed bodies arrive byte-identical; a flood emits "
+                  "exactly one datagram per peer, and in EVERY reachable node state (induction over arbitrary event sequences: no duplicate peer "
+                  "addresses, every peer's connection can seal) an unknown destination in a flooding mode reaches every peer exactly once. "
                   "PARTIAL: mesh-wide exactly-once conservation is decided by the correspondence on 2-5 node meshes with a conservation oracle.",
              technique="Coq proof (case analysis of the node step function) + executed correspondence on meshes with conservation oracle", ref="5 (C10)"),
  "C13": dict(text="Theorems C13_* (Properties/C13.v): in learning mode a DATA frame from peer P with source key S (VLAN, MAC) makes P the entry for S "
